@@ -1,827 +1,3 @@
-//! Engine `conv`: C03 (comparisons), C04 (fixed<->fixed / fixed<->integer
-//! conversions, From / LossyFrom), C05 (float conversions).
-//! Oracles: exact integer / rational arithmetic in `Big`, exact IEEE-754
-//! decode / round-to-nearest-even encode in `vcore::flt`.
-
-mod exec;
-mod kf;
-
-use exec::*;
-use proptest::prelude::*;
-use std::cmp::Ordering;
-use vcore::flt::{self, FK, FV};
-use vcore::gen::{ing, layout_or, pattern, pick, Ing};
-use vcore::out::form_exp;
-use vcore::run::{Budget, Engine, Kf, Tier};
-use vcore::{Big, Case, Eval, Exp, Fail, Out, INTS, L, NLAY};
-
-pub struct Conv {
-    pairs_src8: Vec<u16>,
-    pairs_by_src: Vec<Vec<u16>>,
-    from_by_src: Vec<Vec<u16>>,
-    lossy_by_src: Vec<Vec<u16>>,
-}
-
-fn by_src(list: &[(u16, u16)]) -> Vec<Vec<u16>> {
-    let mut v = vec![Vec::new(); NLAY];
-    for (i, (s, _)) in list.iter().enumerate() {
-        v[*s as usize].push(i as u16);
-    }
-    v
-}
-
-fn ops_of(prop: &str) -> &'static [u16] {
-    match prop {
-        "C03" => &[CMP_FF, CMP_FF, CMP_FI, CMP_FI, CMP_F32, CMP_F64, CMP_SAME],
-        "C04" => &[CONV_FF, CONV_FF, CONV_FF, CONV_FI, CONV_FI, CONV_IF, CONV_IF, CONV_BF, FROM_FF, LOSSY_FF, FROM_INT, INT_FROM_FIX, INT_LOSSY_FIX, FROM_BOOL],
-        "C05" => &[F32_TO_FIX, F64_TO_FIX, F32_TO_FIX, F64_TO_FIX, FIX_TO_F32, FIX_TO_F64, FLOAT_FROM_FIX],
-        _ => &[],
-    }
-}
-
-fn fk_of(op: u16) -> FK {
-    match op {
-        CMP_F32 | F32_TO_FIX | FIX_TO_F32 => FK::F32,
-        _ => FK::F64,
-    }
-}
-
-/// source / destination layouts of a case: (layout of `a`, layout of `b` or of the result)
-pub fn layouts(c: &Case) -> (L, L) {
-    match c.op {
-        CONV_FF | CMP_FF | FROM_FF | LOSSY_FF => {
-            let (s, d) = pair_of(c.op, c.lay2);
-            (L::from_idx(s as usize), L::from_idx(d as usize))
-        }
-        FROM_INT => {
-            let (k, d) = INT_FROM[c.lay2 as usize % INT_FROM.len()];
-            (INTS[k as usize].as_l(), L::from_idx(d as usize))
-        }
-        INT_FROM_FIX => {
-            let (s, k) = FIX_TO_INT_FROM[c.lay2 as usize % FIX_TO_INT_FROM.len()];
-            (L::from_idx(s as usize), INTS[k as usize].as_l())
-        }
-        INT_LOSSY_FIX => {
-            let (s, k) = FIX_TO_INT_LOSSY[c.lay2 as usize % FIX_TO_INT_LOSSY.len()];
-            (L::from_idx(s as usize), INTS[k as usize].as_l())
-        }
-        FROM_BOOL => (L::new(false, 8, 0), L::from_idx(BOOL_FROM[c.lay2 as usize % BOOL_FROM.len()] as usize)),
-        FLOAT_FROM_FIX => {
-            let (s, _) = FLOAT_FROM[c.lay2 as usize % FLOAT_FROM.len()];
-            (L::from_idx(s as usize), L::from_idx(s as usize))
-        }
-        CONV_FI | CMP_FI => (L::from_idx(c.lay as usize), INTS[c.lay2 as usize].as_l()),
-        CONV_IF => (INTS[c.lay2 as usize].as_l(), L::from_idx(c.lay as usize)),
-        CONV_BF => (L::new(false, 8, 0), L::from_idx(c.lay as usize)),
-        _ => (L::from_idx(c.lay as usize), L::from_idx(c.lay as usize)),
-    }
-}
-
-// ---------- float bit-pattern construction ----------
-
-/// nearest float to x / 2^f
-fn nearest(k: FK, x: &Big, f: u32) -> u64 {
-    flt::encode_rne(k, x.is_neg(), &x.abs(), -(f as i64))
-}
-
-fn step(k: FK, mut bits: u64, d: i64) -> u64 {
-    for _ in 0..d.abs() {
-        bits = if d > 0 { flt::next_up(k, bits) } else { flt::next_down(k, bits) };
-    }
-    bits
-}
-
-/// float bits aimed at layout l; `a` = a generated fixed value of that layout (for "near x" classes)
-fn float_pattern(k: FK, l: L, a: u128, cls: usize, r1: u128, r2: u128) -> u64 {
-    let p = k.prec();
-    let d = (r2 % 5) as i64 - 2;
-    match cls {
-        0 => (r1 as u64) & k.mask(),
-        1 => {
-            // magnitude around 2^e for e in [-f-3, int_bits+2]
-            let span = l.w as i64 + 6;
-            let e = (r2 >> 8) as i64 % span - l.f as i64 - 3;
-            let biased = (e + k.bias() as i64).clamp(0, k.exp_field_max() as i64 - 1) as u64;
-            let mant = (r1 as u64) & k.mant_mask();
-            let mant = match (r2 >> 40) % 4 {
-                0 => 0,
-                1 => k.mant_mask(),
-                _ => mant,
-            };
-            (biased << (p - 1)) | mant | if (r2 >> 48) & 1 == 1 && l.signed { k.sign_bit() } else if (r2 >> 49) & 7 == 0 { k.sign_bit() } else { 0 }
-        }
-        2 => {
-            // tie on the destination grid: (n + 1/2) * 2^-f with n of few bits, and float neighbours
-            let nb = 1 + (r2 >> 8) as u32 % (p - 2).min(l.w);
-            let n = (r1 & ((1u128 << nb) - 1)) as u64;
-            let x = Big::from_u64(n).shl(1).add_i64(1); // (2n+1) / 2^(f+1)
-            let x = if (r2 >> 20) & 1 == 1 && l.signed { x.neg() } else { x };
-            step(k, flt::encode_rne(k, x.is_neg(), &x.abs(), -(l.f as i64) - 1), d)
-        }
-        3 => {
-            // around the bounds: max + 1/2 ulp, min - 1/2 ulp, and their float neighbours
-            let t = match (r2 >> 8) % 6 {
-                0 => l.hi().shl(1).add_i64(1),
-                1 => l.lo().shl(1).add_i64(-1),
-                2 => l.hi().shl(1),
-                3 => l.lo().shl(1),
-                4 => l.hi().shl(1).add_i64(2),
-                _ => l.lo().shl(1).add_i64(-2),
-            };
-            step(k, flt::encode_rne(k, t.is_neg(), &t.abs(), -(l.f as i64) - 1), d)
-        }
-        4 => {
-            // specials
-            let mant = (r1 as u64) & k.mant_mask();
-            let sign = if (r2 >> 8) & 1 == 1 { k.sign_bit() } else { 0 };
-            let top = (k.exp_field_max() - 1) << (p - 1);
-            let v = match (r2 >> 12) % 12 {
-                0 => 0,
-                1 => 1,                                  // min subnormal
-                2 => k.mant_mask(),                      // max subnormal
-                3 => mant,                               // random subnormal
-                4 => top | mant,                         // top finite binade
-                5 => top | k.mant_mask(),                // largest finite
-                6 => top,                                // 2^emax
-                7 => k.inf(false),                       // infinity
-                8 => k.inf(false) | mant.max(1),         // NaN, random payload (quiet or signalling)
-                9 => k.inf(false) | (1 << (p - 2)),      // canonical quiet NaN
-                10 => 1u64 << (p - 1),                   // min normal
-                _ => (1u64 << (p - 1)) | mant,           // lowest normal binade
-            };
-            v | sign
-        }
-        _ => {
-            // nearest float to the generated fixed value, and neighbours
-            step(k, nearest(k, &l.val(a), l.f), d)
-        }
-    }
-}
-const FCLASS_TABLE: [usize; 12] = [0, 1, 1, 2, 2, 3, 3, 4, 4, 5, 5, 5];
-const FCLASS_NAMES: [&str; 6] = ["uniform-bits", "aimed-exponent", "tie-on-grid", "around-bounds", "special", "near-fixed-value"];
-
-// ---------- dependent operands for C03 / C04 ----------
-
-/// value of the other side (layout `ol`) related to the value `av` of layout `l`
-fn related(l: L, ol: L, av: &Big, mode: usize, r: u128) -> u128 {
-    let d = Big::from_i64((r % 5) as i64 - 2);
-    let sh = ol.f as i64 - l.f as i64;
-    match mode {
-        // floor image of a in the other layout, +- few ulps
-        1 => ol.wrap(&(&av.scale_floor(sh) + &d)),
-        // values in [max_l, 2 max_l) and (2 min_l, min_l], expressed in the other layout
-        2 => {
-            let base = if (r >> 8) & 1 == 0 { l.hi() } else { l.lo() };
-            let extra = Big::from_u128((r >> 16) & l.mask()).shr_floor(((r >> 9) % l.w as u128) as u32);
-            let v = if base.is_neg() { &base - &extra } else { &base + &extra };
-            let v = if v.abs() >= l.hi().shl(1) { base.clone() } else { v };
-            ol.wrap(&(&v.scale_floor(sh) + &d))
-        }
-        // the other layout's own bounds
-        3 => ol.wrap(&(&(if (r >> 8) & 1 == 0 { ol.hi() } else { ol.lo() }) + &d)),
-        // image of l's bounds +- 1
-        _ => {
-            let base = match (r >> 8) % 4 {
-                0 => l.hi(),
-                1 => l.lo(),
-                2 => l.hi().add_i64(1),
-                _ => l.lo().add_i64(-1),
-            };
-            ol.wrap(&(&base.scale_floor(sh) + &d))
-        }
-    }
-}
-const REL_TABLE: [usize; 10] = [0, 0, 0, 1, 1, 1, 2, 2, 3, 4];
-
-fn ord_exp(ord: Option<Ordering>, label: &str) -> Exp {
-    let (rev, base) = match label.strip_prefix("r_") {
-        Some(b) => (true, b),
-        None => (false, label),
-    };
-    let ord = if rev { ord.map(|o| o.reverse()) } else { ord };
-    let b = |x: bool| Exp::Is(Out::B(x));
-    match base {
-        "eq" => b(ord == Some(Ordering::Equal)),
-        "ne" => b(ord != Some(Ordering::Equal)),
-        "lt" => b(ord == Some(Ordering::Less)),
-        "le" => b(matches!(ord, Some(Ordering::Less) | Some(Ordering::Equal))),
-        "gt" => b(ord == Some(Ordering::Greater)),
-        "ge" => b(matches!(ord, Some(Ordering::Greater) | Some(Ordering::Equal))),
-        "partial_cmp" | "cmp" => Exp::Is(Out::O(ord.map(|o| match o {
-            Ordering::Less => 0,
-            Ordering::Equal => 1,
-            Ordering::Greater => 2,
-        }))),
-        _ => Exp::Free,
-    }
-}
-
-fn form_of(label: &str) -> &str {
-    label.split(':').nth(1).unwrap_or("plain")
-}
-
-impl Conv {
-    fn new() -> Conv {
-        let pairs_src8 = PAIRS.iter().enumerate().filter(|(_, (s, _))| L::from_idx(*s as usize).w == 8).map(|(i, _)| i as u16).collect();
-        Conv { pairs_src8, pairs_by_src: by_src(&PAIRS), from_by_src: by_src(&FROM_PAIRS), lossy_by_src: by_src(&LOSSY_PAIRS) }
-    }
-    fn pick_pair(&self, op: u16, stratum: Option<u16>, r: u128) -> u16 {
-        let (by, n) = match op {
-            FROM_FF => (&self.from_by_src, FROM_PAIRS.len()),
-            LOSSY_FF => (&self.lossy_by_src, LOSSY_PAIRS.len()),
-            _ => (&self.pairs_by_src, PAIRS.len()),
-        };
-        if let Some(s) = stratum {
-            let v = &by[s as usize];
-            if !v.is_empty() {
-                return v[(r % v.len() as u128) as usize];
-            }
-        }
-        ((r >> 7) % n as u128) as u16
-    }
-}
-
-impl Engine for Conv {
-    fn name(&self) -> &'static str {
-        "conv"
-    }
-    fn props(&self) -> Vec<&'static str> {
-        vec!["C03", "C04", "C05"]
-    }
-    fn op_name(&self, _prop: &str, op: u16) -> String {
-        OP_NAMES[op as usize].to_string()
-    }
-    fn op_from_name(&self, _prop: &str, s: &str) -> Option<u16> {
-        OP_NAMES.iter().position(|n| *n == s).map(|i| i as u16)
-    }
-    fn strategy(&self, prop: &str, stratum: Option<u16>) -> BoxedStrategy<Case> {
-        let ops = ops_of(prop);
-        let pairs_by_src = self.pairs_by_src.clone();
-        let from_by_src = self.from_by_src.clone();
-        let lossy_by_src = self.lossy_by_src.clone();
-        let me = Conv { pairs_src8: Vec::new(), pairs_by_src, from_by_src, lossy_by_src };
-        (layout_or(stratum), pick(ops.len()), ing(), ing(), (pick(REL_TABLE.len()), pick(FCLASS_TABLE.len()), pick(12)), any::<u128>(), any::<u128>())
-            .prop_map(move |(lay, oi, ia, ib, (rel, fcls, kind), r3, r4)| {
-                let op = ops[oi];
-                let mut c = Case { op, lay, ..Case::default() };
-                match op {
-                    CONV_FF | CMP_FF | FROM_FF | LOSSY_FF => {
-                        c.lay2 = me.pick_pair(op, stratum.or(if r4 & 3 == 0 { Some(lay) } else { None }), r4 >> 2);
-                        let (s, d) = pair_of(op, c.lay2);
-                        c.lay = s;
-                        let (sl, dl) = (L::from_idx(s as usize), L::from_idx(d as usize));
-                        c.a = pattern(sl, ia);
-                        let mode = REL_TABLE[rel];
-                        if op == CMP_FF {
-                            c.b = if mode == 0 { pattern(dl, ib) } else { related(sl, dl, &sl.val(c.a), mode, r3) };
-                        } else if mode != 0 {
-                            // source value related to the destination's bounds / grid
-                            c.a = related(dl, sl, &dl.val(pattern(dl, ib)), mode, r3);
-                        }
-                    }
-                    CONV_FI | CMP_FI | CONV_IF => {
-                        c.lay2 = kind as u16;
-                        let l = L::from_idx(lay as usize);
-                        let il = INTS[kind].as_l();
-                        c.a = pattern(l, ia);
-                        let mode = REL_TABLE[rel];
-                        match op {
-                            CMP_FI => c.b = if mode == 0 { pattern(il, ib) } else { related(l, il, &l.val(c.a), mode, r3) },
-                            CONV_FI => {
-                                if mode != 0 {
-                                    c.a = related(il, l, &il.val(pattern(il, ib)), mode, r3);
-                                }
-                            }
-                            _ => {
-                                c.a = 0;
-                                c.b = if mode == 0 { pattern(il, ib) } else { related(l, il, &l.val(pattern(l, ia)), mode, r3) };
-                            }
-                        }
-                    }
-                    CONV_BF => c.b = r3 & 1,
-                    FROM_INT => {
-                        c.lay2 = ((r4 >> 3) % INT_FROM.len() as u128) as u16;
-                        let (k, d) = INT_FROM[c.lay2 as usize];
-                        c.lay = d;
-                        c.b = pattern(INTS[k as usize].as_l(), ia);
-                    }
-                    INT_FROM_FIX | INT_LOSSY_FIX => {
-                        let n = if op == INT_FROM_FIX { FIX_TO_INT_FROM.len() } else { FIX_TO_INT_LOSSY.len() };
-                        c.lay2 = ((r4 >> 3) % n as u128) as u16;
-                        let (s, _) = if op == INT_FROM_FIX { FIX_TO_INT_FROM[c.lay2 as usize] } else { FIX_TO_INT_LOSSY[c.lay2 as usize] };
-                        c.lay = s;
-                        c.a = pattern(L::from_idx(s as usize), ia);
-                    }
-                    FROM_BOOL => {
-                        c.lay2 = ((r4 >> 3) % BOOL_FROM.len() as u128) as u16;
-                        c.lay = BOOL_FROM[c.lay2 as usize];
-                        c.b = r3 & 1;
-                    }
-                    FLOAT_FROM_FIX => {
-                        c.lay2 = ((r4 >> 3) % FLOAT_FROM.len() as u128) as u16;
-                        let (s, _) = FLOAT_FROM[c.lay2 as usize];
-                        c.lay = s;
-                        c.a = pattern(L::from_idx(s as usize), ia);
-                    }
-                    CMP_SAME => {
-                        let l = L::from_idx(lay as usize);
-                        c.a = pattern(l, ia);
-                        c.b = match REL_TABLE[rel] {
-                            0 => pattern(l, ib),
-                            1 | 2 => c.a,
-                            _ => l.wrap(&l.val(c.a).add_i64((r3 % 5) as i64 - 2)),
-                        };
-                    }
-                    CMP_F32 | CMP_F64 | F32_TO_FIX | F64_TO_FIX => {
-                        let l = L::from_idx(lay as usize);
-                        c.a = pattern(l, ia);
-                        let k = fk_of(op);
-                        c.b = float_pattern(k, l, pattern(l, ib), FCLASS_TABLE[fcls], r3, r4) as u128;
-                        if (op == CMP_F32 || op == CMP_F64) && FCLASS_TABLE[fcls] == 5 {
-                            // compare x with floats near x itself
-                            c.b = float_pattern(k, l, c.a, 5, r3, r4) as u128;
-                        }
-                        if op == F32_TO_FIX || op == F64_TO_FIX {
-                            c.a = 0;
-                        }
-                    }
-                    _ => {
-                        // FIX_TO_F32 / FIX_TO_F64: values with more significant bits than the float holds
-                        let l = L::from_idx(lay as usize);
-                        let k = fk_of(op);
-                        let p = k.prec();
-                        c.a = match REL_TABLE[rel] {
-                            0 | 3 => pattern(l, ia),
-                            1 => {
-                                // p significant bits, then a tie bit, +- 1
-                                if l.w > p + 1 {
-                                    let top = ((r3 as u64 & k.mant_mask()) | (1 << (p - 1))) as u128;
-                                    let top = if (r4 >> 70) & 3 == 0 { (1u128 << p) - 1 } else { top };
-                                    let v = (top << 1) | 1;
-                                    let sh = (r4 % (l.w - p - 1 + 1) as u128) as u32;
-                                    let v = (v << sh).wrapping_add(((r4 >> 64) % 3) as u128).wrapping_sub(1);
-                                    let v = if l.signed && (r4 >> 90) & 1 == 1 { v.wrapping_neg() } else { v };
-                                    v & l.mask()
-                                } else {
-                                    pattern(l, ia)
-                                }
-                            }
-                            2 => {
-                                // f32 results that are subnormal or overflow
-                                let v = if (r4 >> 3) & 1 == 0 { (r3 & 0xff_ffff_ffff) >> (r4 % 40) } else { l.raw_max() - ((r3 & l.mask()) >> (l.w / 2 + (r4 % 32) as u32 % (l.w / 2))) };
-                                v & l.mask()
-                            }
-                            _ => pattern(l, ib),
-                        };
-                    }
-                }
-                c
-            })
-            .boxed()
-    }
-    fn budget(&self, prop: &str, tier: Tier) -> Budget {
-        let strata: Vec<u16> = (0..NLAY as u16).collect();
-        let nops = ops_of(prop).len() as u64;
-        match tier {
-            Tier::Quick => Budget { random: 1_500_000, per_stratum: 150 * nops, strata },
-            Tier::Thorough => Budget { random: 150_000_000, per_stratum: 5000 * nops, strata },
-        }
-    }
-    fn exh_len(&self, prop: &str, _tier: Tier) -> u64 {
-        match prop {
-            // every value of every 8-bit layout against every pair-list destination / int kind
-            "C04" => 18 * 256 * 12 + 256 * self.pairs_src8.len() as u64,
-            // every f32 with biased exponent in a window x 18 eight-bit layouts is too many; instead
-            // all 8-bit values -> f32/f64 and all 16-bit ties
-            "C05" => 18 * 256 * 2,
-            _ => 0,
-        }
-    }
-    fn exh_case(&self, prop: &str, _tier: Tier, i: u64) -> Case {
-        let lay8 = |k: u64| -> u16 { if k < 9 { k as u16 } else { (253 + k - 9) as u16 } };
-        match prop {
-            "C04" => {
-                let a = i % 256;
-                let r = i / 256;
-                if r < 18 * 12 {
-                    Case { op: CONV_FI, lay: lay8(r % 18), lay2: (r / 18) as u16, a: a as u128, ..Case::default() }
-                } else {
-                    let pi = self.pairs_src8[(r - 18 * 12) as usize];
-                    Case { op: CONV_FF, lay: PAIRS[pi as usize].0, lay2: pi, a: a as u128, ..Case::default() }
-                }
-            }
-            "C05" => {
-                let a = i % 256;
-                let r = i / 256;
-                Case { op: if (r / 18) == 0 { FIX_TO_F32 } else { FIX_TO_F64 }, lay: lay8(r % 18), a: a as u128, ..Case::default() }
-            }
-            _ => unreachable!(),
-        }
-    }
-    fn exh_desc(&self, prop: &str, _tier: Tier) -> String {
-        match prop {
-            "C04" => "every value of all 18 eight-bit layouts -> each of the 12 primitive integer types, and every value of every pair-list entry with an 8-bit source, all forms".into(),
-            "C05" => "every value of all 18 eight-bit layouts -> f32 and f64".into(),
-            _ => String::new(),
-        }
-    }
-    fn lay_is_layout(&self, _prop: &str) -> bool {
-        true
-    }
-    fn rule(&self, prop: &str) -> String {
-        match prop {
-            "C03" => format!("cases = (x in layout L, y) with y a fixed-point value of another layout (fixed list of {} ordered layout pairs covering all 100 family pairs), a primitive integer (12 types, all 506 layouts), f32/f64 (all 506 layouts) or a value of the same type; y generated relative to x (floor image +- ulps, values in [max_L, 2max_L) / below min_L, the other side's bounds, nearest float and neighbours, float specials). Oracle: exact rational comparison by cross-multiplication in big integers; all six operators + partial_cmp in both operand orders; same type: cmp/max/min/hash. Non-trivial: values differ by less than one ulp of the coarser side, or y outside L's range, or a float special.", PAIRS.len()),
-            "C04" => format!("cases = (source value, destination) over {} ordered layout pairs, 506 layouts x 12 integer types + bool, {} provided From pairs and {} provided LossyFrom pairs (sampled at tight bounds), plus the provided infallible conversions int->fixed (100), fixed->int From (40) / LossyFrom (225), bool->fixed (30); oracle floor(a*2^(f'-f)) / n*2^f' in exact integers, all five forms through both entry points (to_num/from_num and FromFixed/ToFixed). Non-trivial: non-zero bits discarded, or result not representable, or within 1 of a bound.", PAIRS.len(), FROM_PAIRS.len(), LOSSY_PAIRS.len()),
-            "C05" => "cases = (layout, f32|f64 bit pattern) and (layout, fixed value); float patterns: uniform bits, exponent aimed at the layout, constructed ties on the destination grid and float neighbours, around max+1/2ulp / min-1/2ulp, specials (zeros, subnormals, top binade, infinities, NaNs); fixed values with more significant bits than the float's precision, ties on the float grid, all-ones mantissas, f32-subnormal and f32-overflowing results. Oracle: exact RNE of value*2^f in big integers; exact IEEE-754 RNE encoder, compared bit for bit. Non-trivial: rounding discards non-zero bits, or a special class, or within 1 ulp of a bound.".into(),
-            _ => String::new(),
-        }
-    }
-    fn assumptions(&self, _prop: &str) -> Vec<String> {
-        vec![
-            "oracle: harness Big integers and IEEE-754 encoder/decoder (self-tested against the host's integer<->float casts at start of run)".into(),
-            "layout pairs are a fixed generated list, not all 506^2 (compile-time type parameters)".into(),
-            "a plain (no overflow handling) conversion whose result does not fit may return the wrapped value or panic".into(),
-        ]
-    }
-    fn required_classes(&self, prop: &str, _tier: Tier) -> Vec<&'static str> {
-        match prop {
-            "C03" => vec!["rhs-in-[max,2max)", "less-than-one-ulp-apart", "nan", "infinity", "top-binade", "subnormal", "equal", "signed-vs-unsigned"],
-            "C04" => vec!["negative-with-lost-bits", "overflow-high", "overflow-low", "unsigned->signed", "signed->unsigned", "from", "lossy_from", "shift>=64", "primitive-infallible"],
-            "C05" => vec!["fixed->float-infallible", "tie-to-even-down", "tie-to-even-up", "nan", "infinity", "top-binade", "subnormal-input", "underflow-to-zero", "to-float-inexact", "to-float-tie", "overflow"],
-            _ => vec![],
-        }
-    }
-    fn eval(&self, prop: &str, c: &Case, chk: bool, kf: &Kf) -> Eval {
-        let mut ev = Eval::default();
-        let (sl, dl) = layouts(c);
-        let a = c.a & sl.mask();
-        let op = c.op;
-        let outs = exec(op, c.lay, c.lay2, a, c.b);
-        let _ = a;
-        let mut note = String::new();
-        let mut check = |label: &str, got: &Out, exp: Exp, ev: &mut Eval| {
-            if !exp.accepts(got, chk) {
-                if let Some(id) = kf::matches(kf, prop, c, label, got, &exp, chk) {
-                    if !ev.known.contains(&id) {
-                        ev.known.push(id);
-                    }
-                    return;
-                }
-                ev.fails.push(Fail { label: label.to_string(), got: got.show(), want: exp.show() });
-            }
-        };
-        for (label, got) in &outs {
-            if note.len() < 140 {
-                note.push_str(&format!("{}={} ", label, got.show()));
-            }
-        }
-        match op {
-            FLOAT_FROM_FIX => {
-                let (_, fk) = FLOAT_FROM[c.lay2 as usize % FLOAT_FROM.len()];
-                let k = if fk == 0 { FK::F32 } else { FK::F64 };
-                let av = sl.val(a);
-                let want = flt::encode_rne(k, av.is_neg(), &av.abs(), -(sl.f as i64)) as u128;
-                // a lossless From must be exact: converting back gives the same value
-                let exact = match flt::decode(k, want as u64) {
-                    FV::Fin { neg, mant, exp } => flt::cmp_fixed_float(&av, sl.f, neg, mant, exp) == Ordering::Equal,
-                    _ => false,
-                };
-                for (label, got) in &outs {
-                    check(label, got, Exp::Is(Out::V(want)), &mut ev);
-                }
-                if !exact {
-                    ev.fails.push(Fail { label: "float-from-soundness".into(), got: "provided From<fixed> for float is not lossless".into(), want: "exact".into() });
-                }
-                ev.class("from");
-                ev.class("fixed->float-infallible");
-                ev.nontrivial = !av.is_zero();
-            }
-            CONV_FF | CONV_FI | CONV_IF | CONV_BF | FROM_FF | LOSSY_FF | FROM_INT | INT_FROM_FIX | INT_LOSSY_FIX | FROM_BOOL => {
-                let src_val = if op == CONV_IF || op == FROM_INT {
-                    sl.val(c.b)
-                } else if op == CONV_BF || op == FROM_BOOL {
-                    Big::from_u64((c.b & 1) as u64)
-                } else {
-                    sl.val(a)
-                };
-                let sh = dl.f as i64 - sl.f as i64;
-                let r = src_val.scale_floor(sh);
-                let fits = dl.fits(&r);
-                let lost = r.scale_floor(-sh.min(0)) != src_val && sh < 0;
-                for (label, got) in &outs {
-                    let exp = match op {
-                        FROM_FF | LOSSY_FF | FROM_INT | INT_FROM_FIX | INT_LOSSY_FIX | FROM_BOOL => Exp::Is(Out::V(dl.wrap(&r))),
-                        _ => form_exp(dl, form_of(label), &r),
-                    };
-                    check(label, got, exp, &mut ev);
-                }
-                if matches!(op, FROM_INT | INT_FROM_FIX | FROM_BOOL) {
-                    ev.class("from");
-                    ev.class("primitive-infallible");
-                    if lost || !fits {
-                        ev.fails.push(Fail { label: "from-soundness".into(), got: "provided From conversion loses value".into(), want: "value preserved".into() });
-                    }
-                }
-                if op == INT_LOSSY_FIX {
-                    ev.class("lossy_from");
-                    ev.class("primitive-infallible");
-                    if !fits {
-                        ev.fails.push(Fail { label: "lossy-soundness".into(), got: "provided LossyFrom conversion overflows".into(), want: "only fractional bits lost".into() });
-                    }
-                }
-                if op == FROM_FF {
-                    ev.class("from");
-                    if lost || !fits {
-                        ev.fails.push(Fail { label: "from-pair-soundness".into(), got: "provided From conversion loses value".into(), want: "value preserved".into() });
-                    }
-                }
-                if op == LOSSY_FF {
-                    ev.class("lossy_from");
-                    if !fits {
-                        ev.fails.push(Fail { label: "lossy-pair-soundness".into(), got: "provided LossyFrom conversion overflows".into(), want: "only fractional bits lost".into() });
-                    }
-                }
-                if lost && src_val.is_neg() {
-                    ev.class("negative-with-lost-bits");
-                }
-                if !fits {
-                    ev.class(if r > dl.hi() { "overflow-high" } else { "overflow-low" });
-                }
-                if sl.signed != dl.signed {
-                    ev.class(if sl.signed { "signed->unsigned" } else { "unsigned->signed" });
-                }
-                if sh.abs() >= 64 {
-                    ev.class("shift>=64");
-                }
-                if sh > 0 {
-                    ev.class("widen-frac");
-                } else if sh < 0 {
-                    ev.class("narrow-frac");
-                }
-                ev.class(match op {
-                    CONV_FF => "fixed->fixed",
-                    CONV_FI => "fixed->int",
-                    CONV_IF => "int->fixed",
-                    CONV_BF | FROM_BOOL => "bool->fixed",
-                    FROM_INT => "int->fixed",
-                    INT_FROM_FIX | INT_LOSSY_FIX => "fixed->int",
-                    _ => "infallible",
-                });
-                let near = (&r - &dl.hi()).abs() <= Big::one() || (&r - &dl.lo()).abs() <= Big::one();
-                ev.nontrivial = lost || !fits || near;
-            }
-            CMP_FF | CMP_FI | CMP_SAME => {
-                let b = c.b & dl.mask();
-                let (av, bv) = (sl.val(a), dl.val(b));
-                // a/2^fs ? b/2^fd  <=>  a*2^fd ? b*2^fs
-                let (x, y) = (av.shl(dl.f), bv.shl(sl.f));
-                let ord = x.cmp(&y);
-                for (label, got) in &outs {
-                    let exp = match *label {
-                        "max" => Exp::Is(Out::V(if ord == Ordering::Less { b } else { a })),
-                        "min" => Exp::Is(Out::V(if ord == Ordering::Greater { b } else { a })),
-                        "hash_eq" => Exp::Is(Out::B(ord == Ordering::Equal)),
-                        _ => ord_exp(Some(ord), label),
-                    };
-                    check(label, got, exp, &mut ev);
-                }
-                // classes
-                let coarse = Big::pow2(sl.f.max(dl.f) - sl.f.min(dl.f)); // one ulp of the coarser side, in the finer scale
-                let diff = (&x - &y).abs().shr_floor(sl.f.min(dl.f));
-                let close = diff < coarse && ord != Ordering::Equal;
-                if ord == Ordering::Equal {
-                    ev.class("equal");
-                }
-                if close {
-                    ev.class("less-than-one-ulp-apart");
-                }
-                // y relative to L's range, in y's own scale: max_L * 2^fd vs b * 2^fs
-                let hi_s = sl.hi().add_i64(1).shl(dl.f);
-                let outside = y >= hi_s || y < sl.lo().shl(dl.f);
-                if y >= hi_s && y < hi_s.shl(1) && sl.signed {
-                    ev.class("rhs-in-[max,2max)");
-                }
-                if outside {
-                    ev.class("rhs-outside-lhs-range");
-                }
-                if sl.signed != dl.signed {
-                    ev.class("signed-vs-unsigned");
-                }
-                if av.is_neg() != bv.is_neg() {
-                    ev.class("sign-short-circuit");
-                }
-                ev.class(match op {
-                    CMP_FF => "fixed-vs-fixed",
-                    CMP_FI => "fixed-vs-int",
-                    _ => "same-type",
-                });
-                ev.nontrivial = close || outside || (op == CMP_SAME && ord == Ordering::Equal);
-            }
-            CMP_F32 | CMP_F64 => {
-                let k = fk_of(op);
-                let fv = flt::decode(k, c.b as u64);
-                let av = sl.val(a);
-                let ord = match &fv {
-                    FV::Nan => None,
-                    FV::Inf(neg) => Some(if *neg { Ordering::Greater } else { Ordering::Less }),
-                    FV::Fin { neg, mant, exp } => Some(flt::cmp_fixed_float(&av, sl.f, *neg, *mant, *exp)),
-                };
-                for (label, got) in &outs {
-                    check(label, got, ord_exp(ord, label), &mut ev);
-                }
-                classify_float(k, c.b as u64, &mut ev);
-                let mut special = matches!(fv, FV::Nan | FV::Inf(_));
-                if let FV::Fin { neg, mant, exp } = fv {
-                    let r = flt::float_to_raw_rne(neg, mant, exp, sl.f);
-                    if !sl.fits(&r) {
-                        ev.class("rhs-outside-lhs-range");
-                        special = true;
-                        if sl.signed && !neg && r <= sl.hi().shl(1) {
-                            ev.class("rhs-in-[max,2max)");
-                        }
-                    }
-                    if (&r - &av).abs() <= Big::one() && ord != Some(Ordering::Equal) {
-                        ev.class("less-than-one-ulp-apart");
-                        special = true;
-                    }
-                    if ord == Some(Ordering::Equal) {
-                        ev.class("equal");
-                    }
-                    if exp < k.min_exp2() + 1 || (mant >> (k.prec() - 1)) == 0 {
-                        special |= mant != 0;
-                    }
-                }
-                ev.class("fixed-vs-float");
-                ev.nontrivial = special;
-            }
-            F32_TO_FIX | F64_TO_FIX => {
-                let k = fk_of(op);
-                let fv = flt::decode(k, c.b as u64);
-                classify_float(k, c.b as u64, &mut ev);
-                match fv {
-                    FV::Nan | FV::Inf(_) => {
-                        for (label, got) in &outs {
-                            let exp = match (form_of(label), &fv) {
-                                ("checked", _) => Exp::Is(Out::O(None)),
-                                ("saturating", FV::Inf(neg)) => Exp::Is(Out::V(if *neg { dl.raw_min() } else { dl.raw_max() })),
-                                _ => Exp::MustPanic,
-                            };
-                            check(label, got, exp, &mut ev);
-                        }
-                        ev.nontrivial = true;
-                    }
-                    FV::Fin { neg, mant, exp } => {
-                        let r = flt::float_to_raw_rne(neg, mant, exp, dl.f);
-                        for (label, got) in &outs {
-                            check(label, got, form_exp(dl, form_of(label), &r), &mut ev);
-                        }
-                        // classes: what did rounding do?
-                        let s = exp as i64 + dl.f as i64;
-                        let mut inexact = false;
-                        if s < 0 && mant != 0 {
-                            let sh = (-s) as u32;
-                            let m = Big::from_u64(mant);
-                            let fl = m.shr_trunc(sh.min(200));
-                            let rem = &m - &fl.shl(sh.min(200));
-                            inexact = !rem.is_zero();
-                            if inexact {
-                                let half = Big::pow2(sh.min(200) - 1);
-                                if rem == half {
-                                    ev.class(if fl.is_odd() { "tie-to-even-up" } else { "tie-to-even-down" });
-                                } else if rem < half {
-                                    ev.class("below-tie");
-                                } else {
-                                    ev.class("above-tie");
-                                }
-                                if r.is_zero() {
-                                    ev.class("underflow-to-zero");
-                                }
-                            }
-                        }
-                        let fits = dl.fits(&r);
-                        if !fits {
-                            ev.class("overflow");
-                        }
-                        let near = (&r - &dl.hi()).abs() <= Big::one() || (&r - &dl.lo()).abs() <= Big::one();
-                        ev.nontrivial = inexact || !fits || near || exp + (k.prec() as i32) - 1 >= k.bias() || (mant >> (k.prec() - 1)) == 0 && mant != 0;
-                    }
-                }
-                ev.class("float->fixed");
-            }
-            _ => {
-                // FIX_TO_F32 / FIX_TO_F64
-                let k = fk_of(op);
-                let av = sl.val(a);
-                let want = flt::encode_rne(k, av.is_neg(), &av.abs(), -(sl.f as i64)) as u128;
-                let is_inf = want as u64 & !k.sign_bit() == k.inf(false);
-                for (label, got) in &outs {
-                    let exp = match form_of(label) {
-                        "checked" => {
-                            if is_inf {
-                                Exp::OneOf(vec![Out::O(Some(want)), Out::O(None)])
-                            } else {
-                                Exp::Is(Out::O(Some(want)))
-                            }
-                        }
-                        "saturating" => {
-                            if is_inf {
-                                Exp::OneOf(vec![Out::V(want), Out::V(k.max_finite(av.is_neg()) as u128)])
-                            } else {
-                                Exp::Is(Out::V(want))
-                            }
-                        }
-                        "overflowing" => {
-                            if is_inf {
-                                Exp::OneOf(vec![Out::F(want, false), Out::F(want, true)])
-                            } else {
-                                Exp::Is(Out::F(want, false))
-                            }
-                        }
-                        _ => Exp::Is(Out::V(want)),
-                    };
-                    check(label, got, exp, &mut ev);
-                }
-                // classes
-                let nb = av.bits();
-                let tz = if av.is_zero() { 0 } else { av.mag_trailing_zeros() };
-                let inexact = nb > k.prec() && nb - tz > k.prec();
-                if inexact {
-                    ev.class("to-float-inexact");
-                    if nb - tz == k.prec() + 1 {
-                        ev.class("to-float-tie");
-                    }
-                }
-                if is_inf {
-                    ev.class("to-float-overflow-to-infinity");
-                }
-                let e = want as u64 >> (k.prec() - 1) & k.exp_field_max();
-                if e == 0 && !av.is_zero() {
-                    ev.class("to-float-subnormal-result");
-                }
-                ev.class("fixed->float");
-                ev.nontrivial = inexact || is_inf || (e == 0 && !av.is_zero());
-            }
-        }
-        ev.note = note;
-        ev
-    }
-    fn exec_raw(&self, _prop: &str, c: &Case) -> vcore::out::Outs {
-        let (sl, _) = layouts(c);
-        exec(c.op, c.lay, c.lay2, c.a & sl.mask(), c.b)
-    }
-    fn selftest(&self) -> Result<u64, String> {
-        // hand-computed vectors for the float oracle: 0.1f32 -> I8F8 (25.6 -> 26), ties
-        let r = |bits: u32, f: u32| -> i128 {
-            match flt::decode(FK::F32, bits as u64) {
-                FV::Fin { neg, mant, exp } => flt::float_to_raw_rne(neg, mant, exp, f).shr_floor(if bits == f32::MAX.to_bits() { 8 } else { 0 }).to_i128().unwrap(),
-                _ => i128::MIN,
-            }
-        };
-        let v = [
-            (r(0.1f32.to_bits(), 8), 26),
-            (r(0.5f32.to_bits(), 0), 0),   // tie to even 0
-            (r(1.5f32.to_bits(), 0), 2),   // tie to even 2
-            (r(2.5f32.to_bits(), 0), 2),
-            (r((-2.5f32).to_bits(), 0), -2),
-            (r((-3.5f32).to_bits(), 0), -4),
-            (r(0.75f32.to_bits(), 1), 2),  // 1.5 -> 2
-            (r(f32::MAX.to_bits(), 0), 0xffffff_i128 << 96),
-            (r(1, 149), 1),                // min subnormal * 2^149 = 1
-            (r(1, 148), 0),                // 0.5 -> even 0
-            (r(3, 148), 2),                // 1.5 -> 2
-        ];
-        for (i, (g, w)) in v.iter().enumerate() {
-            if g != w {
-                return Err(format!("conv float oracle selftest {}: got {} want {}", i, g, w));
-            }
-        }
-        // every generated pair list entry must be consistent with the stated soundness rule
-        for (s, d) in FROM_PAIRS.iter() {
-            let (s, d) = (L::from_idx(*s as usize), L::from_idx(*d as usize));
-            if !(s.f <= d.f && (!s.signed || d.signed) && s.int_bits() + (if !s.signed && d.signed { 1 } else { 0 }) <= d.int_bits()) {
-                return Err("FROM_PAIRS list inconsistent".into());
-            }
-        }
-        Ok(v.len() as u64 + FROM_PAIRS.len() as u64)
-    }
-}
-
-fn classify_float(k: FK, bits: u64, ev: &mut Eval) {
-    let e = (bits >> (k.prec() - 1)) & k.exp_field_max();
-    let m = bits & k.mant_mask();
-    if e == k.exp_field_max() {
-        ev.class(if m == 0 { "infinity" } else { "nan" });
-    } else if e == k.exp_field_max() - 1 {
-        ev.class("top-binade");
-    } else if e == 0 {
-        ev.class(if m == 0 { "zero" } else { "subnormal" });
-        if m != 0 {
-            ev.class("subnormal-input");
-        }
-    }
-    let _ = FCLASS_NAMES;
-}
-
 fn main() {
-    std::process::exit(vcore::run::main_with(&Conv::new(), lay::is_chk()));
+    bin_conv::main_entry()
 }
